@@ -3209,10 +3209,15 @@ impl PeerConnection {
                     state
                 )));
             }
-            // `Disconnected` without a disconnect reason is transient ICE loss (keep waiting);
-            // with a reason the peer / a lower layer ended the connection: do not hang.
+            // `Disconnected` without a disconnect reason is transient ICE loss (keep waiting).
+            // So is `IceDisconnected`: after the grace expiry the driving loop stays parked
+            // ("cycling transport") and an ICE recovery brings the connection back to
+            // Connected; if it does not recover ICE goes Failed (ice_connection_timeout)
+            // and the wait ends there. Every other reason means the peer / a lower layer
+            // ended the connection for good: do not hang.
             if state == PeerConnectionState::Disconnected
                 && let Some(reason) = reason_rx.borrow_and_update().clone()
+                && reason != DisconnectReason::IceDisconnected
             {
                 return Err(RtcError::Internal(format!(
                     "Peer connection disconnected: {}",
